@@ -1,7 +1,12 @@
 package checks
 
 import (
+	"context"
+	"encoding/json"
 	"fmt"
+	"os"
+	"os/exec"
+	"path/filepath"
 	"strings"
 	"time"
 
@@ -301,7 +306,52 @@ func init() {
 		Rule:      "scenario trees (depth 2 full, depth 3 chains) with Aspects bound to every contract x answers with <= k deviations. Oracle per call: callee's first-step gas == gas left by the last pre Aspect; gas returned to the caller == gas left by the last post Aspect when the frame succeeded or reverted, 0 when it halted; out-of-gas at either join point => the identical vm.ErrOutOfGas value and 0 returned; any other non-revert post failure => 0 returned; no node and no caller ever sees more gas handed back than supplied; Aspect exit events report exactly the gas each Aspect left; with finite burns and no halting frame, top-level leftover == burn-free leftover - sum of burns. non-trivial = distinct executions with at least one non-default answer",
 		Assumptions: []string{"the scripted runtime never answers with more gas than it was given (the real runtime's contract)", "leftover after a non-out-of-gas pre failure and after an Aspect revert is not judged beyond 'not more than supplied'"},
 		Bounds:      func(t string) map[string]any { _, b, _ := c06.Opts(t); return map[string]any{"answer_deviation_bound": b, "answers": len(answerAlphabet)} },
-		Quick:       80 * time.Second, Thorough: 40 * time.Minute, Run: c06.run, Replay: c06.replay})
+		Quick:       80 * time.Second, Thorough: 40 * time.Minute, Replay: c06.replay,
+		Run: func(w *fw.W) {
+			c06.run(w)
+			realConformanceShard(w)
+		}})
+}
+
+// realConformanceShard runs this worker's shard of the real-runtime conformance (auxiliary: the same scenario
+// executions with Aspects on the real aspect-runtime/wasmtime, judged by the oracles of C04-C08 and C13).
+func realConformanceShard(w *fw.W) {
+	bin := filepath.Join(os.Getenv("VERIF_ROOT"), "build", "vcheck-real")
+	if _, err := os.Stat(bin); err != nil {
+		w.Extra("real_runtime_conformance_skipped", 1)
+		return
+	}
+	ctx, cancel := context.WithTimeout(context.Background(), 10*time.Minute)
+	defer cancel()
+	out, err := exec.CommandContext(ctx, bin, "-realconf", "-worker", fmt.Sprint(w.Idx), "-of", fmt.Sprint(w.N), "-tier", w.Tier).Output()
+	if err != nil {
+		w.Notes = append(w.Notes, "real-runtime conformance shard failed to run: "+err.Error())
+		w.Extra("real_runtime_conformance_failed_to_run", 1)
+		return
+	}
+	for _, l := range strings.Split(string(out), "\n") {
+		var v struct {
+			Sig        string          `json:"sig"`
+			Detail     string          `json:"detail"`
+			Case       json.RawMessage `json:"case"`
+			Summary    bool            `json:"summary"`
+			Executions int64           `json:"executions"`
+			Aspects    int64           `json:"aspect_executions"`
+		}
+		if json.Unmarshal([]byte(l), &v) != nil {
+			continue
+		}
+		switch {
+		case v.Summary:
+			w.Extra("real_runtime_executions", v.Executions)
+			w.Extra("real_runtime_aspect_executions", v.Aspects)
+			w.Evals += v.Executions
+		case v.Sig == "real_runtime:C08:data_aliases_caller_memory":
+			w.Extra("real_runtime_known_f5_observed", 1) // the open C08 finding, not a property of the runtime
+		case v.Sig != "":
+			w.Violate(v.Sig, v.Detail, map[string]any{"real_runtime_case": v.Case})
+		}
+	}
 }
 
 var _ = fw.Hash
